@@ -732,6 +732,10 @@ def run(ctx):
         ctx.violation("oracle", "# C04 oracle failures. Replay: python3 check.py C04 --replay <this file>  (or feed the case lines to .build/ser_plain;\n"
                       "# output = new serializer|its re-parse|legacy serializer|its re-parse)\n" + txt)
     ctx.notes["oracle_failures"] = len(new)
+    # instruction-level guards in front of the serializer: xsl:comment / xsl:processing-instruction data
+    # (props/C04_xslt.py; Properties_C04x.v)
+    from props import C04_xslt
+    C04_xslt.run_part(ctx)
     return ctx.finish(LEVEL, explanation="Coq theorems over the Gallina model of the buffered writers and the escaping functions (tables and guards regenerated from the source) + byte-exact correspondence of the extracted model with XalanXMLSerializerFactory's product + Xerces re-parse oracle and legacy-serializer differential")
 
 
